@@ -160,6 +160,8 @@ def _observe(case, run_seconds=20):
                 g[gv['name']] = SCRIPT_FUNCTIONS[v['name']]
         else:
             g[gv['name']] = A.gval(v, as_float=case.get('floats', True))
+    for name, v in (case.get('raw_globals') or {}).items():
+        g[name] = v
     g0 = g
     opts['globals'] = g
     opts['logFn'] = log_fn
@@ -245,6 +247,7 @@ def _observe(case, run_seconds=20):
     case.setdefault('dbg', False)
     case.setdefault('bi', True)
     case.setdefault('off', 0)
+    case.setdefault('containOnly', False)
     case.setdefault('checkGlobals', case['kind'] == 'script')
     case.setdefault('expr', A.NULLVAR)
     case.setdefault('model', [])
